@@ -46,6 +46,8 @@ type Solver struct {
 	log       io.Writer
 	sinceBoot int
 	axioms    func(s *Solver, app *Term) // called when an OApp term is first emitted
+	lastCheck string                     // the last check-sat-assuming command
+	dirty     bool                       // commands were sent since the last check (model invalid)
 }
 
 func newSolver(kind string, tt *TermTable, timeoutMs int) (*Solver, error) {
@@ -114,7 +116,15 @@ func (s *Solver) restart() {
 	}
 }
 
+// sendQuery sends a command that does not invalidate the current model.
+func (s *Solver) sendQuery(line string) {
+	d := s.dirty
+	s.send(line)
+	s.dirty = d
+}
+
 func (s *Solver) send(line string) {
+	s.dirty = true
 	if s.log != nil {
 		fmt.Fprintln(s.log, line)
 	}
@@ -215,15 +225,30 @@ func (s *Solver) ensureEmitted(t *Term) {
 				}
 				s.send(fmt.Sprintf("(declare-fun %s (%s) %s)", x.name, sb.String(), sortStr(x.w)))
 			}
-			s.send(fmt.Sprintf("(define-fun t%d () %s %s)", x.id, sortStr(x.w), body(x)))
+			s.define(x)
 			if s.axioms != nil {
 				s.axioms(s, x)
 			}
 		default:
-			s.send(fmt.Sprintf("(define-fun t%d () %s %s)", x.id, sortStr(x.w), body(x)))
+			s.define(x)
 		}
 	}
 }
+
+// define introduces the name t<id> for a term. Definitions are sent as a
+// fresh constant with a defining equation rather than as a define-fun macro:
+// z3 expands nested macros at every use, which is prohibitively slow for the
+// deep ite chains produced by table look-ups.
+func (s *Solver) define(x *Term) {
+	if useDefineFun {
+		s.send(fmt.Sprintf("(define-fun t%d () %s %s)", x.id, sortStr(x.w), body(x)))
+		return
+	}
+	s.send(fmt.Sprintf("(declare-const t%d %s)", x.id, sortStr(x.w)))
+	s.send(fmt.Sprintf("(assert (= t%d %s))", x.id, body(x)))
+}
+
+var useDefineFun = os.Getenv("GOSYM_DEFINEFUN") != ""
 
 // AssertGlobal asserts a universally valid fact (e.g. a UF axiom instance).
 func (s *Solver) AssertGlobal(t *Term) {
@@ -272,10 +297,17 @@ func (s *Solver) Check(pc []*Term, extra ...*Term) SatResult {
 		}
 	}
 	if len(lits) == 0 {
-		return Sat
+		s.lastCheck = "(check-sat)"
+		return s.runCheck()
 	}
-	s.send("(check-sat-assuming (" + strings.Join(lits, " ") + "))")
+	s.lastCheck = "(check-sat-assuming (" + strings.Join(lits, " ") + "))"
+	return s.runCheck()
+}
+
+func (s *Solver) runCheck() SatResult {
+	s.send(s.lastCheck)
 	s.send("(echo \"@sync\")")
+	s.dirty = false
 	res := Unknown
 	got := false
 	errSeen := false
@@ -316,6 +348,14 @@ func (s *Solver) Model(vars []*Term) map[string]*big.Int {
 	if len(vars) == 0 {
 		return res
 	}
+	for _, v := range vars {
+		s.ensureEmitted(v)
+	}
+	if s.dirty && s.lastCheck != "" {
+		if s.runCheck() != Sat {
+			return res
+		}
+	}
 	const chunk = 200
 	for i := 0; i < len(vars); i += chunk {
 		j := i + chunk
@@ -329,7 +369,7 @@ func (s *Solver) Model(vars []*Term) map[string]*big.Int {
 			sb.WriteString(ref(v) + " ")
 		}
 		sb.WriteString("))")
-		s.send(sb.String())
+		s.sendQuery(sb.String())
 		txt := s.readSexp()
 		parseModel(txt, res)
 	}
@@ -342,10 +382,18 @@ func (s *Solver) Value(t *Term) *big.Int {
 		return t.bigVal()
 	}
 	s.ensureEmitted(t)
-	s.send("(get-value (" + ref(t) + "))")
+	if s.dirty && s.lastCheck != "" {
+		if s.runCheck() != Sat {
+			return nil
+		}
+	}
+	s.sendQuery("(get-value (" + ref(t) + "))")
 	txt := s.readSexp()
 	m := map[string]*big.Int{}
 	parseModel(txt, m)
+	if m[ref(t)] == nil {
+		fmt.Fprintf(os.Stderr, "solver: no value for %s in response %q\n", ref(t), txt)
+	}
 	return m[ref(t)]
 }
 
